@@ -138,6 +138,30 @@ pub trait Check: Sync {
     fn shrink(&self, scenario: &Value) -> Vec<Value> {
         generic_shrink(scenario)
     }
+    /// Whether this scenario must run in a process of its own. Cluster simulations that crash
+    /// hosts are history-dependent inside one process: tokio hands out task ids from a
+    /// process-wide counter and drops the tasks of a killed runtime in an order derived from
+    /// them, which changes the order of the FIN segments the dying host emits. A fresh process
+    /// per case makes one scenario one execution, whatever ran before.
+    fn isolate(&self, _scenario: &Value) -> bool {
+        false
+    }
+}
+
+/// Executes one case the way searches, re-checks and replays all do.
+pub fn run_case(check: &dyn Check, scenario: &Value) -> Outcome {
+    if check.isolate(scenario) {
+        match exec_isolated(check.id(), scenario) {
+            Ok(o) => o,
+            Err(e) => {
+                let mut o = Outcome::default();
+                o.anomalies.push(format!("isolated execution failed: {e}"));
+                o
+            },
+        }
+    } else {
+        execute_guarded(check, scenario)
+    }
 }
 
 // ------------------------------------------------------------------------------------------
@@ -400,7 +424,7 @@ pub fn run_worker(check: &dyn Check, a: &WorkerArgs) -> i32 {
             }
         }
         let sc = check.generate(a.seed, idx, a.tier);
-        let out = execute_guarded(check, &sc);
+        let out = run_case(check, &sc);
         rep.evaluations += 1;
         rep.sim_ms += out.sim_ms;
         for (k, v) in &out.faults {
@@ -441,7 +465,7 @@ pub fn run_worker(check: &dyn Check, a: &WorkerArgs) -> i32 {
         }
         // in-run determinism re-check on ~2% of cases (same process; cross-process is the selftest)
         if mix(idx, 0xD37) % 50 == 0 {
-            let out2 = execute_guarded(check, &sc);
+            let out2 = run_case(check, &sc);
             rep.determinism_rechecks += 1;
             if out2.trace_hash != out.trace_hash || out2.signature != out.signature {
                 rep.determinism_mismatches.push(idx);
